@@ -3,7 +3,11 @@
 //! `catch_unwind`, and (b) independently every stage of pest_meta's front end, and prints ONE line
 //!
 //! `<gid>\tderive=<ok|panic>\tparse=<ok|err>\tconsume=<ok|err|na>\tpairs=<ok|err|na>\tfull=<ok|err>\t
-//!  vmsg=<hex|->\tpmsg=<hex|->\tdmsg=<hex|->\tntok=<n>`
+//!  vmsg=<hex|->\tpmsg=<hex|->\tdmsg=<hex|->\tntok=<n>` … `\tdopt=<v,v,…|->\tdoptmsg=<hex>`
+//!
+//! An optional third input column (hex, one derive attribute set per line) asks for the derive verdict under
+//! those option sets as well (`dopt`, in order; `derive`/`dopt` values: ok | panic | cerr = the expansion contains
+//! `compile_error!`).
 //!
 //! vmsg: messages of `consume_rules` (which runs `validate_ast`) joined by "\n"; when the grammar does
 //! not even parse, the parser's message.  pmsg: messages of `validate_pairs`.  dmsg: the first 400
@@ -96,6 +100,61 @@ fn count(ts: proc_macro2::TokenStream) -> usize {
         .sum()
 }
 
+/// The text of the first `compile_error!( "…" )` invocation of an expansion, if any.
+fn compile_error_of(ts: proc_macro2::TokenStream) -> Option<String> {
+    let v: Vec<proc_macro2::TokenTree> = ts.into_iter().collect();
+    for (k, t) in v.iter().enumerate() {
+        match t {
+            proc_macro2::TokenTree::Ident(id) if id == "compile_error" => {
+                if let Some(proc_macro2::TokenTree::Punct(p)) = v.get(k + 1) {
+                    if p.as_char() == '!' {
+                        let msg = match v.get(k + 2) {
+                            Some(proc_macro2::TokenTree::Group(g)) => g.stream().to_string(),
+                            _ => String::new(),
+                        };
+                        return Some(msg);
+                    }
+                }
+            }
+            proc_macro2::TokenTree::Group(g) => {
+                if let Some(m) = compile_error_of(g.stream()) {
+                    return Some(m);
+                }
+            }
+            _ => {}
+        }
+    }
+    None
+}
+
+/// `derive_typed_parser` on `#[grammar_inline = text] <attrs> struct P;` under `catch_unwind`:
+/// ("ok" | "panic" | "cerr" | "badattrs", message, number of token trees).
+fn derive_with(text: &str, attrs: &str) -> (&'static str, String, usize) {
+    let attrs_ts: proc_macro2::TokenStream = match attrs.parse() {
+        Ok(t) => t,
+        Err(_) => return ("badattrs", attrs.to_string(), 0),
+    };
+    let t = text.to_string();
+    let d = catch_unwind(AssertUnwindSafe(move || {
+        pest_typed_generator::derive_typed_parser(
+            quote! {
+                #[grammar_inline = #t]
+                #attrs_ts
+                struct P;
+            },
+            false,
+            false,
+        )
+    }));
+    match d {
+        Ok(ts) => match compile_error_of(ts.clone()) {
+            Some(m) => ("cerr", m.chars().take(400).collect(), 0),
+            None => ("ok", String::new(), count(ts)),
+        },
+        Err(p) => ("panic", payload(p).chars().take(400).collect::<String>(), 0),
+    }
+}
+
 fn main() {
     std::panic::set_hook(Box::new(|_| {}));
     let stdin = std::io::stdin();
@@ -113,23 +172,23 @@ fn main() {
         let gid = it.next().unwrap_or("").to_string();
         let text = unhex(it.next().unwrap_or("-"));
 
-        // (a) the generator under test, default options
-        let t = text.clone();
-        let d = catch_unwind(AssertUnwindSafe(move || {
-            let ts = pest_typed_generator::derive_typed_parser(
-                quote! {
-                    #[grammar_inline = #t]
-                    struct P;
-                },
-                false,
-                false,
-            );
-            count(ts)
-        }));
-        let (derive, dmsg, ntok) = match d {
-            Ok(n) => ("ok", String::new(), n),
-            Err(p) => ("panic", payload(p).chars().take(400).collect::<String>(), 0),
+        // optional third column: derive attribute sets (one per line), e.g. `#[pest_optimizer = false] #[no_warnings]`
+        let optsets: Vec<String> = match it.next() {
+            Some(h) if h != "-" && !h.is_empty() => unhex(h).split('\n').map(|x| x.to_string()).collect(),
+            _ => vec![],
         };
+
+        // (a) the generator under test, default options.  A refusal is a panic (what the proc macro turns into a
+        // compile error) or an expansion that contains `compile_error!` (rustc refuses just the same): `derive=cerr`.
+        let (derive, dmsg, ntok) = derive_with(&text, "");
+        // (a') the same under every requested non-default option set
+        let mut dopt = Vec::new();
+        let mut doptmsg = Vec::new();
+        for o in &optsets {
+            let (v, m, _) = derive_with(&text, o);
+            dopt.push(v);
+            doptmsg.push(m.chars().take(200).collect::<String>().replace('\n', " / "));
+        }
 
         // (b) pest_meta's front end, stage by stage
         let t = text.clone();
@@ -204,8 +263,9 @@ fn main() {
         };
         writeln!(
             out,
-            "{}\tderive={}\tparse={}\tconsume={}\tpairs={}\tfull={}\tvmsg={}\tpmsg={}\tdmsg={}\tntok={}\tpgen={}\tvfront={}\tvreal={}\tvast={}",
-            gid, derive, parse, consume, pairs_v, full, hex(&vmsg), hex(&pmsg), hex(&dmsg), ntok, pgen, vfront, hex(&vreal), hex(&vast)
+            "{}\tderive={}\tparse={}\tconsume={}\tpairs={}\tfull={}\tvmsg={}\tpmsg={}\tdmsg={}\tntok={}\tpgen={}\tvfront={}\tvreal={}\tvast={}\tdopt={}\tdoptmsg={}",
+            gid, derive, parse, consume, pairs_v, full, hex(&vmsg), hex(&pmsg), hex(&dmsg), ntok, pgen, vfront, hex(&vreal), hex(&vast),
+            if dopt.is_empty() { "-".to_string() } else { dopt.join(",") }, hex(&doptmsg.join("\n"))
         )
         .unwrap();
         out.flush().unwrap();
